@@ -498,7 +498,9 @@ def byteSeqVisit : (Ty ⊕ List Ty) → List Nat → Cur → R Val
     | .inr ts =>
       if data.length < ts.length then .err (serdeErr "invalid_length") c
       else match (ts.zip data).mapM (fun p => conv p.1 p.2) with
-        | some vs => .ok (.seq vs) c
+        | some vs =>
+          -- surplus bytes (`bytes.idx != bytes.data.len()` after `visit_seq`) are an error
+          if data.length != ts.length then .err ⟨"Unexpected", c.lastLoc, 0⟩ c else .ok (.seq vs) c
         | none => .err (serdeErr "invalid_type") c
 
 /-- missing fields: `Option` fields default to `None`, anything else is `missing_field` -/
